@@ -49,7 +49,8 @@ func (o *noArgFunctionOperator) Explain() (me string, next []model.VectorOperato
 }
 
 func (o *noArgFunctionOperator) Series(ctx context.Context) ([]labels.Labels, error) {
-	return []labels.Labels{}, nil
+	// A scalar is a single series without labels, like a number literal.
+	return make([]labels.Labels, 1), nil
 }
 
 func (o *noArgFunctionOperator) GetPool() *model.VectorPool {
@@ -68,7 +69,7 @@ func (o *noArgFunctionOperator) Next(ctx context.Context) ([]model.StepVector, e
 		})
 		sv.T = o.currentStep
 		sv.Samples = []float64{result.V}
-		sv.SampleIDs = []uint64{}
+		sv.SampleIDs = []uint64{0}
 
 		ret = append(ret, sv)
 		o.currentStep += o.step
@@ -192,13 +193,14 @@ func (o *functionOperator) Next(ctx context.Context) ([]model.StepVector, error)
 		// scalar() depends on number of samples per vector and returns NaN if len(samples) != 1.
 		// So need to handle this separately here, instead of going via call which is per point.
 		if o.funcExpr.Func.Name == "scalar" {
-			if len(vector.Samples) <= 1 {
-				continue
+			// The result is the single series of the operator (ID 0) at every step:
+			// the value of the only input sample, or NaN for any other sample count.
+			val := math.NaN()
+			if len(vector.Samples) == 1 {
+				val = vector.Samples[0]
 			}
-
-			vectors[batchIndex].Samples = vector.Samples[:1]
-			vectors[batchIndex].SampleIDs = vector.SampleIDs[:1]
-			vector.Samples[0] = math.NaN()
+			vectors[batchIndex].Samples = append(vector.Samples[:0], val)
+			vectors[batchIndex].SampleIDs = append(vector.SampleIDs[:0], 0)
 			continue
 		}
 
@@ -228,7 +230,7 @@ func (o *functionOperator) loadSeries(ctx context.Context) error {
 		}
 
 		if o.funcExpr.Func.Name == "scalar" {
-			o.series = []labels.Labels{}
+			o.series = make([]labels.Labels, 1)
 			return
 		}
 
